@@ -286,6 +286,7 @@ def run(ctx: Ctx) -> None:
     from checks import c10 as _c10
     c10_items = [x for c, x, t in _c10.grammar().enumerate("q", 1, 3)]
     c10_schema = _c10.schema_for(1)
+    c10_items.append("SELECT * REPLACE (1 AS b) FROM x CROSS JOIN y")
     cases = cases + [(x, d, c10_schema) for x in c10_items for d in ("duckdb", "bigquery")][::(2 if quick else 1)]
     # every optimizer rule on the dialect-test statements (no schema: a rule that refuses ends that statement's chain)
     dcases = [(sql, d or None, {}) for d, sql in corpus.dialect_test_sql()]
